@@ -143,6 +143,24 @@ pub fn process_observed_opt(spec: &Spec, obs: &Observed, utf8_paths_only: bool) 
             }
         }
     }
+    // ---- C09 consequence: a literal token is never beaten on its own text by a default-priority regex
+    for (ti, t) in spec.pats.iter().enumerate() {
+        if t.kind != Kind::Token || t.icase {
+            continue;
+        }
+        let w = t.lit.bytes();
+        if w.is_empty() || (spec.utf8 && std::str::from_utf8(&w).is_err()) {
+            continue;
+        }
+        let Some(g) = obs.graph.as_ref().filter(|g| obs.accepted && g.leaves.len() == spec.pats.len() && g.structural().is_empty()) else { break };
+        let run = g.run(&w, spec.utf8, false);
+        if let Some(vcore::graph::Item::Tok(l, 0, e)) = run.items.first() {
+            let p = &spec.pats[*l];
+            if *l != ti && *e == w.len() && p.kind != Kind::Token && p.priority.is_none() && t.priority.is_none() {
+                out.findings.push(Finding { tag: "TOKEN-BEATEN".into(), detail: format!("token leaf {ti} loses on its own text to default-priority regex leaf {l}"), path: w.clone(), at_end: true });
+            }
+        }
+    }
     let must = info.must_reject(spec);
     if !must.is_empty() {
         out.reject_reason = Some(must.iter().map(|m| m.tag()).collect::<Vec<_>>().join("+"));
@@ -185,23 +203,6 @@ pub fn process_observed_opt(spec: &Spec, obs: &Observed, utf8_paths_only: bool) 
     out.late_overreads = l1.stats.late_accept_overreads;
     for v in l1.violations {
         out.findings.push(Finding { tag: v.tag, detail: v.detail, path: v.path, at_end: v.at_end });
-    }
-    // ---- C09 consequence: a literal token is never beaten on its own text by a default-priority regex
-    for (ti, t) in spec.pats.iter().enumerate() {
-        if t.kind != Kind::Token || t.icase {
-            continue;
-        }
-        let w = t.lit.bytes();
-        if w.is_empty() || (spec.utf8 && std::str::from_utf8(&w).is_err()) {
-            continue;
-        }
-        let run = g.run(&w, spec.utf8, false);
-        if let Some(vcore::graph::Item::Tok(l, 0, e)) = run.items.first() {
-            let p = &spec.pats[*l];
-            if *l != ti && *e == w.len() && p.kind != Kind::Token && p.priority.is_none() && t.priority.is_none() {
-                out.findings.push(Finding { tag: "TOKEN-BEATEN".into(), detail: format!("token leaf {ti} loses on its own text to default-priority regex leaf {l}"), path: w.clone(), at_end: true });
-            }
-        }
     }
     // shape features
     out.shape = Some(g.signature());
